@@ -24,16 +24,28 @@ first arrival: two histories merged by canon() must be indistinguishable.
 import collections
 
 
-def build(system, root, hist):
+def build(system, root, hist, touch=False):
     obj = system.initial(root)
+    if touch:
+        system.observe(obj)
     for op in hist:
         system.apply(obj, op)
+        if touch:
+            system.observe(obj)
     return obj
 
 
-def bfs(system, root, depth, ctx, key_prefix, check_determinism=False):
-    """Explore every history of at most ``depth`` operations from ``root``."""
+def bfs(system, root, depth, ctx, key_prefix, check_determinism=False, touch=False):
+    """Explore every history of at most ``depth`` operations from ``root``.
+
+    ``touch=True`` makes every history read the observables after every operation
+    (op, look, op, look ...), the way a user inspects statistics between steps;
+    without it a rebuilt object is only looked at in its final state, and state that
+    is computed lazily at query time (caches) would never be exercised mid-history.
+    """
     obj0 = system.initial(root)
+    if touch:
+        system.observe(obj0)
     c0 = system.canon(obj0)
     seen = {c0: (system.observe(obj0), ())}
     ctx.count("states")
@@ -53,9 +65,9 @@ def bfs(system, root, depth, ctx, key_prefix, check_determinism=False):
         if len(hist) >= depth:
             continue
         if parent is None:
-            parent = build(system, root, hist)
+            parent = build(system, root, hist, touch)
         for op in system.menu(parent):
-            obj = system.clone(parent) if use_clone else build(system, root, hist)
+            obj = system.clone(parent) if use_clone else build(system, root, hist, touch)
             outcome = system.apply(obj, op)
             nh = hist + (op,)
             ctx.count("transitions")
@@ -71,7 +83,7 @@ def bfs(system, root, depth, ctx, key_prefix, check_determinism=False):
                                   explanation="reference model and implementation "
                                               "disagree after this history")
             if check_determinism:
-                obj2 = build(system, root, nh)
+                obj2 = build(system, root, nh, touch)
                 ctx.count("determinism_replays")
                 if system.canon(obj2) != c or system.observe(obj2) != system.observe(obj):
                     ctx.violation(key_prefix + ":nondeterministic", root,
